@@ -12,3 +12,6 @@ import (
 func (s *PolicySets) VerifProtoRuleToHnsRules(policyId string, r *proto.Rule, isInbound bool, chunk int) ([]*hns.ACLPolicy, error) {
 	return s.protoRuleToHnsRules(policyId, r, isInbound, chunk)
 }
+
+// VerifFeatures returns the HNS features the policy sets were built with.
+func (s *PolicySets) VerifFeatures() hns.HNSSupportedFeatures { return s.supportedFeatures }
